@@ -26,6 +26,18 @@ Section TextFix.
     unfold scan_ctx. rewrite (lex_ctx pF pD pLD fF fD fLD ms Hc). now apply scan_loop_tk_ctx.
   Qed.
 
+  (* The general statement, for ANY numbering of the labels: scanning the text MIR_output writes yields the
+     modules with their labels renamed the way MIR_scan_string renames them ([relabel_ctx], ParseProofs.v:
+     each text label of a module gets the next number of the context's label counter at its first
+     occurrence), up to tnorm.  [relabel_ctx ms = Some ms'] only requires label numbers that print as
+     L<n> names (int64) and at most one definition of a label per module. *)
+  Lemma text_module_scan_relabel_lemma ms ms' :
+    cctx_ok pF pD pLD fF fD fLD ms -> Forall tmodule_ok ms -> relabel_ctx ms = Some ms' ->
+    scan_ctx pF pD pLD (p_ctx fF fD fLD ms) = Ok (map tnorm_module ms').
+  Proof.
+    intros Hc Ht Hr. unfold scan_ctx. rewrite (lex_ctx pF pD pLD fF fD fLD ms Hc). now apply scan_loop_tk_ctx_gen.
+  Qed.
+
   (* the writer model is total: MIR_output's model is a structurally recursive function, so every
      item kind (expr, lref, ref, hard-register globals, block arguments included) has an output *)
   Lemma text_writer_total_lemma ms : exists txt, p_ctx fF fD fLD ms = txt.
